@@ -310,3 +310,7 @@ mod tests {
         assert!(filter.validate_complexity().is_err());
     }
 }
+
+#[cfg(kani)]
+#[path = "/verif/harness/anda_db/query.rs"]
+mod verif_kani;
